@@ -51,9 +51,6 @@ package handler
 //@   ensures EvN >= old(EvN) && (forall j: int :: 0 <= j && j < old(EvN) ==> EvLog[j] == old(EvLog)[j])
 //@   ensures forall sk: iface :: sk != mktEscrowSKey() ==> keepsClosed(old(KVhas)[sk], old(KVval)[sk], KVhas[sk], KVval[sk]) && depKeeps(old(KVhas)[sk], old(KVval)[sk], KVhas[sk], KVval[sk])
 
-//@ extern sdk.UnwrapSDKContext(ctx)
-//@   pure
-
 // ---- CloseLease -----------------------------------------------------------------------------
 // Only an active lease with its active bid and matched order is closed; all three are closed together and the
 // payment stream is asked to close; the order is re-created only for a group that is open when it is re-created.
